@@ -320,7 +320,7 @@ structure FGpu where
   idk : Nat
   lib : Lib
   gpu : Gpu
-  deriving Repr
+  deriving DecidableEq, Repr
 
 structure Group where
   key : Nat
@@ -525,7 +525,7 @@ inductive Decision
   | load (full : Bool) (l : List FGpu) (p : Nat)   -- `s.loadFn(pending, ggml, l, p)`
   | evict                                          -- `findRunnerToUnload`, wait for the unload, retry
   | delay                                          -- other models still loading: requeue
-  deriving Repr
+  deriving DecidableEq, Repr
 
 /-- The GPU branch of `processPending` for a model that is not loaded.  No runner loaded: best full
     fit on the reported inventory, else the best *partial* fit ("only allow partial loads when this is
